@@ -136,11 +136,13 @@ def run(idx: ProgramIndex, rep: Report, tier: str):
     rep.rule("C17-2", "transform(inverse_transform(y)) == y and inverse_transform(transform(x)) == x; default transform/inverse pairing consistent")
     rep.rule("C17-3", "wiring of every constrained parameter: getter, setter, constraint and raw name agree; raw parameters are encapsulated")
     rep.rule("C17-4", "Module.initialize rejects out-of-bounds values on both the Tensor and the float path before writing")
+    rep.rule("C17-6", "initialize writes exactly the given value into the parameter; sample_from_prior stores prior.sample() through the setting closure")
     rep.rule("C17-5", "prior closures are value-typed; string-named priors name an existing member; setting closures reach the setter of the same parameter")
     transforms(idx, rep)
     wiring(idx, rep)
     initialize_bounds(idx, rep)
     prior_closures(idx, rep)
+    sampling_and_writes(idx, rep)
 
 
 # ---- C17-1 / C17-2 -------------------------------------------------------------------------------------------------
@@ -635,3 +637,61 @@ def _same_raw(cls: ClassInfo, target: str, reach: str) -> bool:
     if s is None:
         return False
     return bool(raws & {kw for kw, _ in setter_facts(cls, s)})
+
+
+# ---- C17-6 ---------------------------------------------------------------------------------------------------------
+def sampling_and_writes(idx: ProgramIndex, rep: Report):
+    gm = idx.cls("gpytorch.module", "Module")
+    fi = idx.method(gm, "initialize", own=True)
+    # every write into the parameter's data carries `val` (expanded / viewed / as is), nothing else
+    probs = []
+    nw = 0
+    for n in ast.walk(fi.node):
+        v = None
+        if isinstance(n, ast.Call) and isinstance(n.func, ast.Attribute) and n.func.attr in ("copy_", "fill_") and src(n.func.value).endswith(".data") and n.args:
+            v = n.args[0]
+        elif isinstance(n, ast.Assign) and any(src(t).endswith(".data") for t in n.targets):
+            v = n.value
+        if v is None:
+            continue
+        nw += 1
+        root = v
+        while isinstance(root, ast.Call) and isinstance(root.func, ast.Attribute) and root.func.attr in ("expand_as", "view_as", "expand", "view", "to", "type_as", "clone", "detach"):
+            root = root.func.value
+        if not (isinstance(root, ast.Name) and root.id == "val"):
+            probs.append("parameter data is written with `%s`, not with the given value" % src(v)[:50])
+        tgt = n.func.value if isinstance(n, ast.Call) else n.targets[0]
+        if "self.__getattr__(name)" not in src(tgt) and "getattr(self, name)" not in src(tgt):
+            probs.append("the write `%s` does not target the named parameter" % src(tgt)[:50])
+    rep.add("C17-6", "gpytorch.module:Module.initialize[writes]", fi.where, not probs and nw >= 3, "all %d writes store `val` (reshaped at most) into the named parameter" % nw if not probs else "; ".join(sorted(set(probs))), {"writes": nw})
+    sp = idx.method(gm, "sample_from_prior", own=True)
+    calls = [c for c in calls_in(sp.node) if isinstance(c.func, ast.Name) and c.func.id == "setting_closure"]
+    ok = len(calls) == 1 and len(calls[0].args) == 2 and src(calls[0].args[0]) == sp.params[0] and src(calls[0].args[1]).startswith("prior.sample(")
+    unpack = any(isinstance(n, ast.Assign) and isinstance(n.targets[0], ast.Tuple) and len(n.targets[0].elts) == 3 and src(n.targets[0].elts[0]) == "prior" and src(n.targets[0].elts[2]) == "setting_closure" and "self._priors[prior_name]" in src(n.value) for n in ast.walk(sp.node))
+    raises = any(isinstance(n, ast.If) and "setting_closure is None" in src(n.test) and any(isinstance(x, ast.Raise) for x in n.body) for n in ast.walk(sp.node))
+    rep.add("C17-6", "gpytorch.module:Module.sample_from_prior", sp.where, ok and unpack and raises,
+            "setting_closure(self, prior.sample()) with the closure registered for that prior; missing closure raises" if ok and unpack and raises else
+            "sample_from_prior no longer stores prior.sample() through the prior's own setting closure (or silently skips a missing closure)", {})
+    # register_prior stores (prior, closure, setting_closure) under the name and, for string names, a setting closure that initialises that parameter
+    rp = idx.method(gm, "register_prior", own=True)
+    pname = rp.params[2]  # the `prior` parameter
+    stores = [n for n in ast.walk(rp.node) if isinstance(n, ast.Assign) and isinstance(n.targets[0], ast.Subscript) and chain(n.targets[0].value) == "self._priors"]
+    ok_store = len(stores) == 1 and isinstance(stores[0].value, ast.Tuple) and len(stores[0].value.elts) == 3 and src(stores[0].value.elts[0]) == pname and src(stores[0].targets[0].slice) == rp.params[1]
+    # the locals that name the attribute of a string-named prior
+    str_names = {rp.params[3]}
+    for n in ast.walk(rp.node):
+        if isinstance(n, ast.Assign) and isinstance(n.targets[0], ast.Name) and isinstance(n.value, ast.Name) and n.value.id in str_names:
+            str_names.add(n.targets[0].id)
+    reads = writes = False
+    for f in ast.walk(rp.node):
+        if isinstance(f, ast.FunctionDef) and f is not rp.node:
+            for r in ast.walk(f):
+                if isinstance(r, ast.Return) and isinstance(r.value, ast.Call) and chain(r.value.func) == "getattr" and len(r.value.args) == 2 and src(r.value.args[1]) in str_names:
+                    reads = True
+                if isinstance(r, ast.Call) and isinstance(r.func, ast.Attribute) and r.func.attr == "initialize":
+                    for k in r.keywords:
+                        if k.arg is None and isinstance(k.value, ast.Dict) and len(k.value.keys) == 1 and src(k.value.keys[0]) in str_names and isinstance(k.value.values[0], ast.Name):
+                            writes = True
+    ok = ok_store and reads and writes
+    rep.add("C17-6", "gpytorch.module:Module.register_prior", rp.where, ok, "stores (prior, closure, setting closure) under the prior's name; string-named priors read and initialise that very attribute" if ok else
+            "register_prior no longer stores the (prior, closure, setting closure) triple under its name, or the closures of a string-named prior do not read/initialise the named attribute (store=%s, reads=%s, writes=%s)" % (ok_store, reads, writes), {})
